@@ -41,6 +41,16 @@ def prepare(case, strict=True):
         return p
     if p.fl.ctor_err:
         counters["accepted_but_R_expects_refusal"] = 1
+    # what kinds of designs the monitor actually saw (evidence)
+    for ct in sorted({c["type"] for c in S.all_constraints(p.spec["block"])}):
+        counters["designs_with_" + ct] = 1
+    ops = sorted({b["op"] if b["op"] != "cross" else b.get("ctor", "CrossBlock") for b in S.walk_blocks(p.spec["block"])})
+    for o in ops:
+        counters["designs_with_" + o] = 1
+    if any(f["kind"] == "derived" and S.is_complex(p.spec, n) for n, f in p.spec["factors"].items()):
+        counters["designs_with_complex_window"] = counters.get("designs_with_complex_window", 0) or 1
+    if any(w > 1 for f in p.spec["factors"].values() for _, w in f["levels"]):
+        counters["designs_with_weights"] = 1
     p.counters = counters
     p.user = S.tree_design(p.spec["block"])
     return p
